@@ -94,6 +94,14 @@ def truthy : Val → Bool
   | .list xs => !xs.isEmpty
   | .dict kvs => !kvs.isEmpty
 
+/-- the truth value where the universe determines it.  `.dict []` stands for an empty Python dict
+(false) as well as for an object without attributes (true: a pydantic config object whose
+`.dict(exclude_unset=True)` is empty still makes `{% if config %}` succeed) — not stated. -/
+def truthOf (v : Val) : Except Err Bool :=
+  match v with
+  | .dict [] => .error (.unmodelled "truth value of an empty dict or object")
+  | v => .ok (truthy v)
+
 /-- `str(value)` as `{{ value }}` writes it (Undefined prints as the empty string) -/
 def toStr : Val → Except Err (List Char)
   | .undef => .ok []
@@ -116,10 +124,10 @@ def valEq : Val → Val → Except Err Bool
   | .undef, .undef => .ok true
   | .bool _, .int _ => .error (.unmodelled "bool == int")
   | .int _, .bool _ => .error (.unmodelled "int == bool")
-  | .list _, _ => .error (.unmodelled "list ==")
-  | _, .list _ => .error (.unmodelled "== list")
-  | .dict _, _ => .error (.unmodelled "dict ==")
-  | _, .dict _ => .error (.unmodelled "== dict")
+  -- only container against container of the same kind needs element-wise comparison (not stated);
+  -- a list / dict / object never equals a scalar, None, Undefined or a container of the other kind
+  | .list _, .list _ => .error (.unmodelled "list == list")
+  | .dict _, .dict _ => .error (.unmodelled "dict == dict")
   | _, _ => .ok false
 
 def cmpOrd (op : CmpOp) (a b : Int) : Bool :=
@@ -184,6 +192,21 @@ def applyFilter (f : Filter) (v : Val) : Except Err Val :=
     | v => .ok v)
   | .other _ => .error .unsupported
 
+/-- the attributes (CPython 3.12, `dir(type)`) that a str / int / bool / list / None itself has: on these
+names `x.a` is a bound method or a number, which the universe does not contain -/
+def builtinHasAttr (v : Val) (a : String) : Bool :=
+  a.startsWith "__" ||
+  (match v with
+   | .str _ => ["capitalize", "casefold", "center", "count", "encode", "endswith", "expandtabs", "find", "format",
+       "format_map", "index", "isalnum", "isalpha", "isascii", "isdecimal", "isdigit", "isidentifier", "islower",
+       "isnumeric", "isprintable", "isspace", "istitle", "isupper", "join", "ljust", "lower", "lstrip", "maketrans",
+       "partition", "removeprefix", "removesuffix", "replace", "rfind", "rindex", "rjust", "rpartition", "rsplit",
+       "rstrip", "split", "splitlines", "startswith", "strip", "swapcase", "title", "translate", "upper", "zfill"].contains a
+   | .int _ | .bool _ => ["as_integer_ratio", "bit_count", "bit_length", "conjugate", "denominator", "from_bytes",
+       "imag", "is_integer", "numerator", "real", "to_bytes"].contains a
+   | .list _ => ["append", "clear", "copy", "count", "extend", "index", "insert", "pop", "remove", "reverse", "sort"].contains a
+   | _ => false)
+
 structure Env where
   base : List (String × Val)      -- the context passed to `template.render(**context)`
   vars : List (String × Val)      -- `set` / loop / macro-parameter bindings, innermost first
@@ -202,7 +225,9 @@ def eval (env : Env) : Expr → Except Err Val
     match (← eval env e) with
     | .dict kvs => pure (lookupKey kvs a)
     | .undef => throw .undefined
-    | _ => throw (.unmodelled "attribute of a builtin value")
+    | v =>
+      -- `Environment.getattr`: `getattr(v, a)` fails, `v[a]` fails (TypeError), the result is Undefined
+      if builtinHasAttr v a then throw (.unmodelled "attribute of a builtin value") else pure .undef
   | .item e i => do
     let v ← eval env e
     let k ← eval env i
@@ -210,18 +235,23 @@ def eval (env : Env) : Expr → Except Err Val
     | .undef, _ => throw .undefined
     | .list xs, .int n => if n < 0 then throw (.unmodelled "negative index") else pure (xs.getD n.toNat .undef)
     | .dict kvs, .str s => pure (lookupKey kvs (String.ofList s))
+    -- `Environment.getitem`: TypeError / LookupError from `v[k]` with an int `k` gives Undefined
+    | .str s, .int n =>
+      if n < 0 then throw (.unmodelled "negative index")
+      else pure (match s[n.toNat]? with | some c => .str [c] | none => .undef)
+    | .none, .int _ | .int _, .int _ | .bool _, .int _ | .dict _, .int _ => pure .undef
     | _, _ => throw (.unmodelled "subscript")
   | .str s => .ok (.str s)
   | .int n => .ok (.int n)
   | .bool b => .ok (.bool b)
   | .none => .ok .none
-  | .not e => do pure (.bool (!truthy (← eval env e)))
+  | .not e => do pure (.bool (!(← truthOf (← eval env e))))
   | .and a b => do
     let x ← eval env a
-    if truthy x then eval env b else pure x
+    if (← truthOf x) then eval env b else pure x
   | .or a b => do
     let x ← eval env a
-    if truthy x then pure x else eval env b
+    if (← truthOf x) then pure x else eval env b
   | .cmp op a b => do
     let x ← eval env a
     let y ← eval env b
@@ -316,7 +346,7 @@ def render (env : Env) : Tpl → Except Err (Out × Env)
     pure (⟨s, [(e, s)]⟩, env)
   | .ite c thn els => do
     let v ← eval env c
-    if truthy v then renderL env thn else renderL env els
+    if (← truthOf v) then renderL env thn else renderL env els
   | .forIn vars iter body => do
     let items ← iterate (← eval env iter)
     -- every iteration starts from the environment before the loop; nothing leaks out of the body
